@@ -1189,3 +1189,130 @@ func ruleScopeIncludeWalk(c *Ctx) []Obligation {
 	}
 	return obs
 }
+
+// ---------------------------------------------------------------- POOL.RESET (seeded C02-w10-2, C16-w10-2)
+
+func init() {
+	register(&Rule{Name: "POOL.RESET", Props: []string{"C19", "C18", "C02", "C16"}, Floor: 1,
+		Doc: "an object taken from a process-wide sync.Pool starts afresh: every field of it that is ever written while it is in use is written again when it is taken out or before it is put back",
+		Run: rulePoolReset})
+}
+
+func rulePoolReset(c *Ctx) []Obligation {
+	const R = "POOL.RESET"
+	var obs []Obligation
+	type getSite struct {
+		fn   *ssa.Function
+		call *ssa.Call
+		obj  ssa.Value // the asserted object
+		elem *types.Named
+		pool string
+	}
+	var gets []getSite
+	for _, fn := range c.Funcs {
+		if !c.isRepoFn(fn) {
+			continue
+		}
+		eachInstr(fn, func(in ssa.Instruction) {
+			ta, isTA := in.(*ssa.TypeAssert)
+			if !isTA {
+				return
+			}
+			src := ta.X
+			call, isC := src.(*ssa.Call)
+			if !isC {
+				return
+			}
+			cal := call.Call.StaticCallee()
+			if cal == nil || cal.Signature.Recv() == nil || cal.Name() != "Get" || !strings.HasSuffix(cal.Signature.Recv().Type().String(), "sync.Pool") {
+				return
+			}
+			pt, isP := ta.AssertedType.(*types.Pointer)
+			if !isP || namedOf(pt.Elem()) == nil {
+				return
+			}
+			var obj ssa.Value = ta
+			if ta.CommaOk {
+				for _, r := range refsOf(ta) {
+					if ex, isE := r.(*ssa.Extract); isE && ex.Index == 0 {
+						obj = ex
+					}
+				}
+			}
+			gets = append(gets, getSite{fn, call, obj, namedOf(pt.Elem()), AccessPath(call.Call.Args[0])})
+		})
+	}
+	if len(gets) == 0 {
+		o := ok(R, "no object of the library is recycled through a sync.Pool", "-", "no (*sync.Pool).Get in the repository")
+		o.Trivial = true
+		return []Obligation{o}
+	}
+	for _, g := range gets {
+		st, isS := g.elem.Underlying().(*types.Struct)
+		if !isS {
+			continue
+		}
+		// the functions that put into the same pool, and the New function
+		resetFns := map[*ssa.Function]bool{g.fn: true}
+		newFns := map[*ssa.Function]bool{}
+		for _, fn := range c.Funcs {
+			eachInstr(fn, func(in ssa.Instruction) {
+				switch x := in.(type) {
+				case *ssa.Call:
+					if cal := x.Call.StaticCallee(); cal != nil && cal.Signature.Recv() != nil && cal.Name() == "Put" && len(x.Call.Args) == 2 && AccessPath(x.Call.Args[0]) == g.pool {
+						resetFns[fn] = true
+					}
+				case *ssa.Store:
+					if _, f, base := fieldOf(x.Addr); f != nil && f.Name() == "New" && base != nil && AccessPath(base) == g.pool {
+						if nf := funcValue(x.Val); nf != nil {
+							newFns[nf] = true
+						}
+					}
+				}
+			})
+		}
+		wholesale := false
+		for fn := range resetFns {
+			eachInstr(fn, func(in ssa.Instruction) {
+				if s, isSt := in.(*ssa.Store); isSt && namedOf(s.Val.Type()) == g.elem {
+					wholesale = true // *obj = T{…}
+				}
+			})
+		}
+		for i := 0; i < st.NumFields(); i++ {
+			f := st.Field(i)
+			con := fmt.Sprintf("%s: field %s.%s of an object from pool %s starts afresh", c.FnName(g.fn), objName(g.elem.Obj()), f.Name(), shortPath(g.pool))
+			written, reset := "", wholesale
+			for _, fn := range c.Funcs {
+				if !c.isRepoFn(fn) {
+					continue
+				}
+				for _, s := range storesToField(fn, f) {
+					switch {
+					case resetFns[fn]:
+						reset = true
+					case newFns[fn]:
+					default:
+						if _, isAlloc := rootOf(s.Addr).(*ssa.Alloc); isAlloc {
+							continue // a literal under construction elsewhere
+						}
+						if written == "" {
+							written = c.InstrPos(s)
+						}
+					}
+				}
+			}
+			switch {
+			case written == "":
+				o := ok(R, con, c.Pos(f.Pos()), "never written while the object is in use")
+				o.Trivial = true
+				obs = append(obs, o)
+			case reset:
+				obs = append(obs, ok(R, con, c.Pos(f.Pos()), "written again where the object is taken out of the pool or put back"))
+			default:
+				obs = append(obs, bad(R, con, c.InstrPos(g.call), fmt.Sprintf("the field is written while the object is in use (%s) and neither the function that takes the object out of the pool nor the one that puts it back writes it: the next user — another Parse, another module set, another goroutine — starts with what the last one left (error counts, cursor columns, mode flags)", written)))
+			}
+		}
+	}
+	return obs
+}
